@@ -7,6 +7,8 @@ package mdns
 // ---- library contracts (assumed) ----
 //@ lib strings.Split(s, sep)
 //@   ensures result != nil && len(result) >= 1
+//@ lib strings.SplitN(s, sep, n)
+//@   ensures result != nil && len(result) >= 1 && (n > 0 ==> len(result) <= n)
 //@ lib strconv.ParseUint(s, base, bitSize)
 //@ lib net.ParseIP(s)
 //@ lib (ip net.IP).To4() pure
@@ -28,13 +30,40 @@ package mdns
 //@ func (m *MdnsManager).setMdnsEntry(ski, entry) inline
 //@ func (m *MdnsManager).removeMdnsEntry(ski) inline
 
+//@ lib utf8.RuneStart(b) pure
+//@ func shortenString(s, maxLen0) pure [C16,C08]
+//@   requires maxLen0 >= 0
+//@   ensures [C16] L1-short: len(s) <= maxLen0 ==> result == s
+//@   ensures [C16] L2-bound: len(result) <= maxLen0 || len(s) <= maxLen0
+//@   ensures [C16] L3-prefix: prefixof(result, s)
+//@ loop shortenString #0
+//@   invariant 0 <= maxLen && maxLen <= maxLen0 && maxLen < len(s)
+//@ func NewMDNS(ski, deviceBrand, deviceModel, deviceType, deviceSerial, deviceCategories, shipIdentifier, serviceName, port, ifaces, providerSelection) [C16]
+//@   ensures [C16] L4-fields: result != nil && len(result.deviceBrand) <= 32 && len(result.deviceModel) <= 32 && len(result.deviceType) <= 32 && len(result.deviceSerial) <= 32
+//@   ensures [C16] L5-prefix: prefixof(result.deviceBrand, deviceBrand) && prefixof(result.deviceModel, deviceModel) && prefixof(result.deviceType, deviceType) && prefixof(result.deviceSerial, deviceSerial)
+//@   ensures [C16] L6-identity: result.ski == ski && result.identifier == shipIdentifier && result.port == port && result.serviceName == serviceName
+//@   ensures result.entries != nil
 //@ func parseTxt(txt) [C08,C16]
 //@   ensures result != nil
 //@ func (m *MdnsManager).copyMdnsEntries() [C08]
 //@   requires forall k: string :: k in m.entries ==> m.entries[k] != nil
 //@   modifies $decoded
-//@ func (m *MdnsManager).processMdnsEntry(elements, name, host, addresses, port, remove) entry [C08,C17]
-//@   modifies *
+// what the resolver must deliver for a record to count (SHIP 7.3.2): mandatory keys, version 1, boolean register, not ourselves
+//@ macro HAS(k) := (k in elements)
+//@ macro VALID() := (@HAS("txtvers") && @HAS("id") && @HAS("path") && @HAS("ski") && @HAS("register") && elements["txtvers"] == "1" && (elements["register"] == "true" || elements["register"] == "false") && elements["ski"] != m.ski)
+//@ macro SKI() := elements["ski"]
+//@ macro OTHERS() := (forall j: string :: j != @SKI() ==> (j in m.entries) == (j in old(m.entries)) && m.entries[j] == old(m.entries[j]))
+//@ func (m *MdnsManager).processMdnsEntry(elements, name, host, addresses, port, remove) entry [C08,C17,C16]
+//@   ensures [C17] V1-ignored: !@VALID() ==> (forall j: string :: (j in m.entries) == (j in old(m.entries)) && m.entries[j] == old(m.entries[j]))
+//@   ensures [C17] V2-removed: @VALID() && remove ==> !(@SKI() in m.entries) && @OTHERS()
+//@   ensures [C17] V3-known: @VALID() && !remove ==> @SKI() in m.entries && @OTHERS()
+//@   ensures [C17] V4-same: @VALID() && !remove && old(@SKI() in m.entries) ==> m.entries[@SKI()] == old(m.entries[@SKI()])
+//@   ensures [C16] V5-fields: @VALID() && !remove && !old(@SKI() in m.entries) ==> m.entries[@SKI()].Ski == @SKI() && m.entries[@SKI()].Identifier == elements["id"] && m.entries[@SKI()].Path == elements["path"] && m.entries[@SKI()].Register == (elements["register"] == "true") && m.entries[@SKI()].Name == name && m.entries[@SKI()].Host == host && m.entries[@SKI()].Port == port
+//@   ensures [C16] V6-optional: @VALID() && !remove && !old(@SKI() in m.entries) ==> m.entries[@SKI()].Brand == ite(@HAS("brand"), elements["brand"], "") && m.entries[@SKI()].Model == ite(@HAS("model"), elements["model"], "") && m.entries[@SKI()].Type == ite(@HAS("type"), elements["type"], "") && m.entries[@SKI()].Serial == ite(@HAS("serial"), elements["serial"], "")
+//@   modifies m.entries[@SKI()], api.MdnsEntry.Addresses, $decoded
+// the mandatory-keys loop: every key looked at so far is present
+//@ loop (m *MdnsManager).processMdnsEntry #0
+//@   invariant forall i: int :: 0 <= i && i <= rangeindex ==> $rangeslice[i] in elements
 //@ func (a *AvahiProvider).processService(service, remove, cb) [C08]
 //@   requires a.avServer != nil && cb != nil && a.serviceElements != nil
 //@   modifies *
